@@ -6,6 +6,7 @@
 //! and token delimiters, so a disagreement between quoter and lexer about white space
 //! surfaces as a counterexample.
 #![cfg(kani)]
+#![feature(formatting_options)]
 
 use yash_syntax::parser::lex::{is_blank, is_token_delimiter_char};
 
@@ -61,8 +62,252 @@ fn c07_empty_string() {
     kani::cover!(true, "reached");
 }
 
-// NOTE (measured): a third harness that printed the quoted form through `Display` into a
-// fixed-size sink and read it back with a reference reader of '...' and "..." (one character
-// from a 12-symbol alphabet) ran CBMC out of memory after 20 min: `write!(f, "'{}'", raw)` goes
-// through core::fmt's argument machinery. The printed FORM is therefore outside the claim; what
-// is decided is the DECISION to quote, for every Unicode character.
+// ---------------------------------------------------------------------------------------------
+// The printed form, for strings of two and three characters.
+//
+// `Display for Quoted` is driven into a fixed-size sink (no heap); the printed bytes are read back
+// by a reference reader of ONE shell word written from XCU 2.2 (quoting), 2.3 (token recognition),
+// 2.6 (expansions), 2.13 (patterns). Asserted: the reader yields exactly the original string as one
+// field and consumes the whole output.
+//
+// Transform T8 (part of the claim): in the snapshot of yash-quote the one formatted write
+// `write!(f, "'{}'", self.raw)` is spelled out as write_char / write_str / write_char under
+// cfg(kani) - core::fmt's argument machinery (function pointers per argument) ran CBMC out of
+// memory (measured: 14 GB after 20 min for ONE character). All other writes are the real code.
+// Stub (part of the claim): `<&str as Pattern>::is_contained_in` - std's substring search, which
+// dispatches to SIMD / two-way searchers - is replaced by a naive search with the same contract;
+// `core::slice::memchr::memchr` (word-at-a-time search behind str::find(char)) likewise.
+
+struct Sink {
+    buf: [u8; 32],
+    len: usize,
+}
+
+impl core::fmt::Write for Sink {
+    fn write_str(&mut self, s: &str) -> core::fmt::Result {
+        let b = s.as_bytes();
+        let mut i = 0;
+        while i < b.len() {
+            if self.len >= 32 {
+                return Err(core::fmt::Error);
+            }
+            self.buf[self.len] = b[i];
+            self.len += 1;
+            i += 1;
+        }
+        Ok(())
+    }
+}
+
+pub fn naive_contains<'b>(needle: &'b str, haystack: &str) -> bool
+where
+    'b: 'b,
+{
+    let n = needle.as_bytes();
+    let h = haystack.as_bytes();
+    if n.len() > h.len() {
+        return false;
+    }
+    let mut i = 0;
+    while i + n.len() <= h.len() {
+        let mut j = 0;
+        let mut eq = true;
+        while j < n.len() {
+            if h[i + j] != n[j] {
+                eq = false;
+            }
+            j += 1;
+        }
+        if eq {
+            return true;
+        }
+        i += 1;
+    }
+    false
+}
+
+pub fn naive_memchr(x: u8, text: &[u8]) -> Option<usize> {
+    let mut i = 0;
+    while i < text.len() {
+        if text[i] == x {
+            return Some(i);
+        }
+        i += 1;
+    }
+    None
+}
+
+/// Is the unquoted word `s` read back as the single literal field `s`? (`s` non-empty, chars given)
+fn unquoted_is_literal(cs: &[char]) -> bool {
+    let n = cs.len();
+    let mut i = 0;
+    while i < n {
+        let c = cs[i];
+        if is_token_delimiter_char(c) || is_blank(c) || c == '\n' {
+            return false;
+        }
+        if matches!(c, '\\' | '\'' | '"' | '$' | '`' | '*' | '?') {
+            return false;
+        }
+        // comment / tilde expansion in first position; tilde after a colon matters in assignment values
+        if (c == '#' || c == '~') && i == 0 {
+            return false;
+        }
+        if c == '~' && i > 0 && cs[i - 1] == ':' {
+            return false;
+        }
+        // an = after the first character makes the word an assignment in command position
+        if c == '=' && i > 0 {
+            return false;
+        }
+        // bracket expression: [ ... ] with at least one member is a pattern
+        if c == '[' {
+            let mut j = i + 2;
+            while j < n {
+                if cs[j] == ']' {
+                    return false;
+                }
+                j += 1;
+            }
+        }
+        // brace expansion (yash extension): { , } or { .. }
+        if c == '{' {
+            let mut j = i + 1;
+            let mut comma = false;
+            while j < n {
+                if cs[j] == ',' || (cs[j] == '.' && j + 1 < n && cs[j + 1] == '.') {
+                    comma = true;
+                }
+                if cs[j] == '}' && comma {
+                    return false;
+                }
+                j += 1;
+            }
+        }
+        i += 1;
+    }
+    true
+}
+
+/// Reference reader of one word: returns Some(number of bytes of `want` matched) iff `out` is one
+/// complete word whose quote-removed value is exactly `want`.
+fn reads_back_as(out: &[u8], want: &[u8]) -> bool {
+    let n = out.len();
+    let mut i = 0; // position in out
+    let mut k = 0; // position in want
+    if n == 0 {
+        return false;
+    }
+    if out[0] == b'\'' {
+        // '...' : everything up to the next ' is literal
+        i = 1;
+        while i < n && out[i] != b'\'' {
+            if k >= want.len() || want[k] != out[i] {
+                return false;
+            }
+            k += 1;
+            i += 1;
+        }
+        return i + 1 == n && k == want.len();
+    }
+    if out[0] == b'"' {
+        i = 1;
+        while i < n && out[i] != b'"' {
+            let mut c = out[i];
+            if c == b'$' || c == b'`' {
+                return false; // live expansion inside double quotes
+            }
+            if c == b'\\' {
+                if i + 1 >= n {
+                    return false;
+                }
+                let d = out[i + 1];
+                if d == b'$' || d == b'`' || d == b'"' || d == b'\\' {
+                    c = d;
+                    i += 1;
+                } else if d == b'\n' {
+                    return false; // line continuation would remove both
+                }
+                // otherwise the backslash is literal
+            }
+            if k >= want.len() || want[k] != c {
+                return false;
+            }
+            k += 1;
+            i += 1;
+        }
+        return i + 1 == n && k == want.len();
+    }
+    false
+}
+
+fn printed_form(ws: &[usize]) {
+    let mut raw = [0u8; 12];
+    let mut cs = ['\0'; 4];
+    let mut len = 0;
+    let mut k = 0;
+    while k < ws.len() {
+        let c: char = kani::any();
+        kani::assume(c.len_utf8() == ws[k]);
+        let mut tmp = [0u8; 4];
+        c.encode_utf8(&mut tmp);
+        let mut i = 0;
+        while i < ws[k] {
+            raw[len + i] = tmp[i];
+            i += 1;
+        }
+        cs[k] = c;
+        len += ws[k];
+        k += 1;
+    }
+    let s = unsafe { core::str::from_utf8_unchecked(&raw[..len]) };
+    let q = yash_quote::quoted(s);
+    let mut sink = Sink { buf: [0; 32], len: 0 };
+    // Display::fmt is called directly on a Formatter over the sink (no format_args! machinery)
+    let r = {
+        let mut f = core::fmt::Formatter::new(&mut sink, core::fmt::FormattingOptions::new());
+        core::fmt::Display::fmt(&q, &mut f)
+    };
+    assert!(r.is_ok(), "C07 printing succeeds");
+    let out = &sink.buf[..sink.len];
+    if !q.needs_quoting() {
+        assert!(sink.len == len, "C07 unquoted output is the string itself");
+        let mut i = 0;
+        while i < len {
+            assert!(out[i] == raw[i], "C07 unquoted output is the string itself");
+            i += 1;
+        }
+        assert!(unquoted_is_literal(&cs[..ws.len()]), "C07 a string printed without quotes is read back literally");
+    } else {
+        assert!(reads_back_as(out, &raw[..len]), "C07 the quoted form reads back as exactly the original string");
+    }
+    kani::cover!(!q.needs_quoting(), "unquoted output reachable");
+    kani::cover!(q.needs_quoting() && out[0] == b'\'', "single-quoted output reachable");
+    kani::cover!(q.needs_quoting() && out[0] == b'"', "double-quoted output reachable");
+}
+
+macro_rules! pf {
+    ($name:ident, $ws:expr) => {
+        #[kani::proof] // unwinding bound passed per harness: 2 * bytes + 4
+        #[kani::stub(<&str as core::str::pattern::Pattern>::is_contained_in, naive_contains)]
+        #[kani::stub(core::slice::memchr::memchr, naive_memchr)]
+        fn $name() {
+            printed_form(&$ws);
+            kani::cover!(true, "each: reached");
+        }
+    };
+}
+pf!(c07_form_w1, [1]);
+pf!(c07_form_w2, [2]);
+pf!(c07_form_w3, [3]);
+pf!(c07_form_w4, [4]);
+pf!(c07_form_w11, [1, 1]);
+pf!(c07_form_w12, [1, 2]);
+pf!(c07_form_w21, [2, 1]);
+pf!(c07_form_w13, [1, 3]);
+pf!(c07_form_w31, [3, 1]);
+pf!(c07_form_w14, [1, 4]);
+pf!(c07_form_w41, [4, 1]);
+pf!(c07_form_w111, [1, 1, 1]);
+pf!(c07_form_w112, [1, 1, 2]);
+pf!(c07_form_w1111, [1, 1, 1, 1]);
